@@ -42,6 +42,8 @@ def c01(res: CheckResult) -> None:
     call_unit(res, "pre-gate (9 kinds x 9 shapes x truth x around x sync/async x error forms)",
               list(F.fam_pre(res.tier, rng)), ic, require_outcomes=["ret", "Violation"])
     random_unit(res, "random programs beyond the exhaustive bounds", list(F.fam_random(res.tier, rng, "pre")), ic)
+    call_unit(res, "contract errors deriving from BaseException, the same contract violated three times in a row",
+              list(F.fam_errbase(res.tier, rng)), ic)
     def_unit(res, "inherited precondition groups incl. overrides under foreign decorators: calls judged against the "
                   "effective DNF for all truth assignments", list(DF.fam_foreign_hier(res.tier, rng)), ic,
              verdicts=True, rng=rng)
@@ -72,6 +74,8 @@ def c02(res: CheckResult) -> None:
     call_unit(res, "post-gate (kinds x stacks of 0..3 x truth x body outcomes incl. BaseException x sync/async)",
               list(F.fam_post(res.tier, rng)), ic, require_outcomes=["ret", "Violation", "KI", "Exception"])
     random_unit(res, "random programs beyond the exhaustive bounds", list(F.fam_random(res.tier, rng, "post")), ic)
+    call_unit(res, "contract errors deriving from BaseException, the same contract violated three times in a row",
+              list(F.fam_errbase(res.tier, rng)), ic)
     def_unit(res, "inherited postconditions incl. overrides under foreign decorators: calls judged against the "
                   "effective conjunction for all truth assignments", list(DF.fam_foreign_hier(res.tier, rng)), ic,
              verdicts=True, rng=rng)
@@ -101,6 +105,8 @@ def c09(res: CheckResult) -> None:
     call_unit(res, "error forms x roles x kinds x sync/async", list(F.fam_err(res.tier, rng)), ic,
               require_outcomes=["Violation", "ErrClass", "ErrInst", "ErrFact", "TypeError"])
     random_unit(res, "random programs beyond the exhaustive bounds", list(F.fam_random(res.tier, rng, "err")), ic)
+    call_unit(res, "contract errors deriving from BaseException, the same contract violated three times in a row",
+              list(F.fam_errbase(res.tier, rng)), ic)
 
 
 @check("C16")
@@ -124,6 +130,8 @@ def c03(res: CheckResult) -> None:
     call_unit(res, "async and sync public methods mixed; operation sequences", list(F.fam_inv_async(res.tier, rng)), ic)
     call_unit(res, "subclass constructors calling the base constructor; members added by the subclass",
               list(F.fam_inv_sub(res.tier, rng)), ic, require_outcomes=["ret", "Violation"])
+    call_unit(res, "contract errors deriving from BaseException, the same contract violated three times in a row",
+              list(F.fam_errbase(res.tier, rng)), ic)
     def_unit(res, "member selection: which members of a class / subclass carry invariant checks, per check_on combination",
              list(DF.fam_wraptable(res.tier, rng)), ic, rng=rng)
     def_unit(res, "member kinds (method, property, static, class method) inherited / overridden under invariants",
@@ -141,6 +149,8 @@ def c11(res: CheckResult) -> None:
               list(F.fam_cancel(res.tier, rng)), ic, require_outcomes=["ret", "Cancelled"])
     call_unit(res, "violations found by async and sync public methods, then further operations on the same object",
               list(F.fam_inv_async(res.tier, rng)), ic)
+    call_unit(res, "contract errors deriving from BaseException, the same contract violated three times in a row",
+              list(F.fam_errbase(res.tier, rng)), ic)
 
 
 @check("C12")
